@@ -47,6 +47,9 @@ class _Rand:
     def shuffle(self, x: list) -> None:  # pragma: no cover
         pass
 
+    def uniform(self, a: float, b: float) -> float:  # SystemClock's offset, used by real (non-virtual) runs
+        return a
+
 
 _patched = False
 _deadline_counter = [0]
